@@ -658,4 +658,55 @@ theorem round_ok (cfg : Cfg) (σ : List String) (fsr fsd : FS) (w : WS)
           | none => rw [e] at this; simp at this
           | some _ => rfl
 
+/-! ### the fixpoint -/
+
+structure RefreshOk (cfg : Cfg) (fsd : FS) (w w' : WS) : Prop where
+  pinv : PInv cfg fsd w'
+  closed : Closed fsd w'
+  none : CachesNone w'
+  root : w'.root = w.root
+
+theorem refreshF_ok (cfg : Cfg) (σ : List String) (fsr fsd : FS) (hok : fsOk fsd = true) :
+    ∀ (n : Nat) (w : WS), PInv cfg fsd w → CachesNone w → Agree fsr fsd w → Keep fsr fsd w →
+      Sound w → mu fsr w < n → RefreshOk cfg fsd w (refreshF cfg σ fsr n w) := by
+  intro n
+  induction n with
+  | zero => intro w _ _ _ _ _ h; omega
+  | succ n ih =>
+    intro w h hnone hag hkeep hs hmu
+    rw [refreshF_succ]
+    have hr := round_ok cfg σ fsr fsd w h hok hnone hag hkeep
+    cases hb : (round cfg σ fsr w).2 with
+    | false =>
+      simp only [Bool.false_eq_true, if_false]
+      exact ⟨hr.pinv, hr.closed hb, hr.none, hr.root⟩
+    | true =>
+      simp only [if_true]
+      have hlt := hr.less hs hb
+      have := ih _ hr.pinv hr.none hr.agree hr.keep hr.sound (by omega)
+      exact ⟨this.pinv, this.closed, this.none, this.root.trans hr.root⟩
+
+/-- `refreshIncludeTreeLocked` restores the invariant and makes the index hold exactly the
+    existing files reachable from the root; the fuel `len(disk) + 2` suffices. -/
+theorem refresh_ok (cfg : Cfg) (σ : List String) (fsr fsd : FS) (w : WS) (hok : fsOk fsd = true)
+    (h : PInv cfg fsd w) (hnone : CachesNone w) (hag : Agree fsr fsd w) (hkeep : Keep fsr fsd w) :
+    RefreshOk cfg fsd w (refreshIncludeTree cfg σ fsr w) := by
+  unfold refreshIncludeTree
+  simp only [h.root_ne, if_false]
+  rw [refreshF_succ]
+  have hr := round_ok cfg σ fsr fsd w h hok hnone hag hkeep
+  cases hb : (round cfg σ fsr w).2 with
+  | false =>
+    simp only [Bool.false_eq_true, if_false]
+    exact ⟨hr.pinv, hr.closed hb, hr.none, hr.root⟩
+  | true =>
+    simp only [if_true]
+    have hmu : mu fsr (round cfg σ fsr w).1 < fsr.length + 1 := by
+      unfold mu
+      have := List.length_filter_le (fun q => ((round cfg σ fsr w).1.idx.files.get q).isNone) fsr.keys
+      simp only [AList.keys, List.length_map] at this ⊢
+      omega
+    have := refreshF_ok cfg σ fsr fsd hok _ _ hr.pinv hr.none hr.agree hr.keep hr.sound hmu
+    exact ⟨this.pinv, this.closed, this.none, this.root.trans hr.root⟩
+
 end HL.Lemmas.Refresh
